@@ -150,6 +150,95 @@ class SubpartitionKeySpec(KernelSpec):
         return Agg("enum", [rstr(bytes.fromhex(toks[1]))], name="Option", variant="Some")
 
 
+class SubpartitionLoadedSpec(SubpartitionKeySpec):
+    """PartitionMetadata::subpartition_has_been_loaded(name): the `loaded` flag of the file the name routes to, and `true`
+    ("nothing left to load": the column is absent) for a name beyond the last stored column - Partition::get_cols relies on
+    this to hand out an empty handle instead of scheduling a disk read that can never be satisfied.  With
+    mark_subpartition_as_loaded(name) first (inst mark=True): the routed file reads as loaded afterwards, no other flag moves."""
+    method = ("PartitionMetadata", None, "subpartition_has_been_loaded")
+
+    def instantiations(self, tier):
+        return [{"nat": "subpartition_loaded", "mark": False}, {"nat": "subpartition_loaded", "mark": True}]
+
+    def explore(self, ctx, ex, fn, inst, shape, inp, pre):
+        pm = self.build_pm(ctx, shape)
+        cell = Cell(pm)
+        if not inst["mark"]:
+            st = ex.start(fn, [Ref(cell), str_ref(inp["name"])], {}, pc=pre)
+            return ex.explore(st)
+        from ..pyengine import run_sequence
+        mk, _ = ex.resolve_method("PartitionMetadata", None, "mark_subpartition_as_loaded")
+        calls = [(mk, lambda env: [Ref(env["pm"]), str_ref(inp["name"])], {}),
+                 (fn, lambda env: [Ref(env["pm"]), str_ref(inp["name"])], {})]
+        outs = run_sequence(ex, pre, {"pm": cell}, calls)
+        return outs
+
+    def flags(self, state, shape):
+        pm = state.env["pm"].v
+        fs = self._pm_fields
+        sfs = self._sub_fields
+        out = []
+        for sub in pm.fields[fs.index("subpartitions")].elems:
+            a = sub.fields[sfs.index("loaded")]
+            while isinstance(a, Ref):
+                a = interp.navigate(a.cell.v, a.path)
+            out.append(a.fields[0])
+        return out
+
+    def get_fn(self, ctx, inst):
+        self._pm_fields = ctx.src().struct_fields("PartitionMetadata")
+        self._sub_fields = ctx.src().struct_fields("SubpartitionMetadata")
+        return KernelSpec.get_fn(self, ctx, inst)
+
+    def post(self, inst, shape, inp, value, state=None):
+        g, nlen = shape
+        lasts = GROUPSETS_THOROUGH[g]
+        name = inp["name"]
+        if isinstance(value, tuple):
+            value, flags = value
+        else:
+            flags = self.flags(state, shape) if (inst["mark"] and state is not None) else None
+        conds = []
+        prev_gt = B(True)
+        anyhit = B(False)
+        for k, last in enumerate(lasts):
+            lt, eq = cmp_bytes_ref(name, last)
+            le = bor(lt, eq)
+            here = band(prev_gt, le)
+            want = B(True) if inst["mark"] else B(k % 2 == 1)
+            conds.append((f"a name in ({'-inf' if k == 0 else lasts[k-1]!r}, {last!r}] reports the loaded flag of sub-partition {k}" + (" (set by mark_subpartition_as_loaded)" if inst["mark"] else ""),
+                          implies(here, binop("Eq", value, want))))
+            if flags is not None:
+                for j in range(len(lasts)):
+                    wantj = B(True) if j == k else B(j % 2 == 1)
+                    conds.append((f"marking a name routed to sub-partition {k} leaves flag {j} " + ("set" if j == k else "untouched"), implies(here, binop("Eq", flags[j], wantj))))
+            anyhit = bor(anyhit, here)
+            prev_gt = bnot(le)
+        conds.append(("a name beyond the last stored column reads as already loaded (absent column: nothing to read from disk)", implies(bnot(anyhit), binop("Eq", value, B(True)))))
+        if flags is not None:
+            for j in range(len(lasts)):
+                conds.append((f"marking a name beyond the last stored column leaves flag {j} untouched", implies(bnot(anyhit), binop("Eq", flags[j], B(j % 2 == 1)))))
+        return conds
+
+    def native(self, inst, shape, inp):
+        if inp is None:
+            return ("subpartition_loaded", [])
+        g, nlen = shape
+        lasts = GROUPSETS_THOROUGH[g]
+        return ("subpartition_loaded", [",".join(x.hex() for x in lasts), bytes(x.v for x in inp["name"]).hex() or "-", 1 if inst["mark"] else 0])
+
+    def parse_native(self, inst, shape, toks):
+        v = I("bool", toks[0] == "true")
+        if inst["mark"]:
+            return (v, [I("bool", c == "1") for c in toks[1]])
+        return v
+
+    def native_view(self, inst, shape, v, st):
+        if inst["mark"]:
+            return (v, self.flags(st, shape))
+        return v
+
+
 # ----------------------------------------------------------------------------------------------------
 # writer side: scheduler::inner_locustdb::subpartition
 # ----------------------------------------------------------------------------------------------------
